@@ -17,6 +17,10 @@ EXTENDS RqRead, Json, Integers, Sequences, FiniteSets, TLC
 
 Trace == ndJsonDeserialize("trace.ndjson")
 
+CONSTANT OneCluster   \* TRUE: between two `reset` lines all events are of ONE cluster (harness traces).  FALSE: a case may
+                      \* build several clusters that reuse node ids (the repository's own tests): nothing is compared
+                      \* across nodes, and a node that opens starts from scratch
+
 VARIABLES l,        \* next line
           front,    \* highest version acknowledged / observed by a completed lin|strong op
           pend,     \* op -> [kind, key, val, lvl, lb]
@@ -114,7 +118,8 @@ FsmReset == /\ Is("fsm.reset") /\ Step
             /\ srtSeen' = Put(srtSeen, Ev.inst, {}) /\ mfsm' = Put(mfsm, Ev.inst, 0)
             /\ rdst' = [r \in {x \in DOMAIN rdst : rdst[x].node # Ev.inst} |-> rdst[r]]
             /\ fsmx' = [fsmx EXCEPT !.pos = Put(@, Ev.inst, 0)]
-            /\ UNCHANGED <<front, pend, invd, acks, obs, tlb, vlc, bad>>
+            /\ tlb' = IF OneCluster THEN tlb ELSE Put(tlb, Ev.inst, 0)
+            /\ UNCHANGED <<front, pend, invd, acks, obs, vlc, bad>>
 
 (* Cluster.tla ApplyOne / InstallSnapshot / Restart on the real FSM: within one life of a node the FSM        *)
 (* position only moves forward (an index is applied once; a snapshot is installed only ahead of it), and   *)
@@ -128,7 +133,7 @@ FsmApply == /\ (Is("fsm.apply") \/ Is("fsm.restore") \/ Is("fsm.signal")) /\ Ste
                                 at |-> IF Is("fsm.apply") /\ Ev.idx \notin DOMAIN fsmx.at THEN Put(fsmx.at, Ev.idx, Ev.term) ELSE fsmx.at]
                     /\ bad' = IF Is("fsm.apply") /\ Ev.idx <= pos THEN Flag(FALSE, "fsm-applied-index-at-or-below-its-position")
                               ELSE IF Is("fsm.restore") /\ Ev.idx < pos THEN Flag(FALSE, "snapshot-restored-behind-fsm-position")
-                              ELSE IF Is("fsm.apply") /\ Ev.idx \in DOMAIN fsmx.at /\ fsmx.at[Ev.idx] # Ev.term
+                              ELSE IF OneCluster /\ Is("fsm.apply") /\ Ev.idx \in DOMAIN fsmx.at /\ fsmx.at[Ev.idx] # Ev.term
                                    THEN Flag(FALSE, "different-entries-applied-at-one-index")
                               ELSE bad
             /\ UNCHANGED <<front, pend, invd, acks, obs, srtSeen, vlc, rdst>>
